@@ -45,7 +45,9 @@ THOROUGH_LENGTHS = list(range(0, 3201)) + [4096, 10000, 65536, 65537, 1 << 20]
 def _device():
     blob = {"kind": "BLOB", "name": "IMG", "label": None, "state": "Ok", "perm": "rw", "timeout": 0, "enabled": True,
             "elements": {"e0": {"name": "B0", "label": None, "default": None, "enabled": True},
-                         "e1": {"name": "B1", "label": None, "default": None, "enabled": True}}, "rule": None, "default_on": None}
+                         "e1": {"name": "B1", "label": None, "default": None, "enabled": True},
+                         # a member the driver only shows later (a second sensor that comes up): hidden at the start
+                         "e2": {"name": "B2", "label": None, "default": None, "enabled": False}}, "rule": None, "default_on": None}
     txt = {"kind": "Text", "name": "TXT", "label": None, "state": "Ok", "perm": "rw", "timeout": 0, "enabled": True,
            "elements": {"e0": {"name": "T0", "label": None, "default": "init", "enabled": True}}, "rule": None, "default_on": None}
     # an upload-only BLOB property (firmware, overlay): write-only for clients
@@ -112,6 +114,10 @@ def generate(seed, tier, index):
         # the update's length on the wire is made an exact multiple of the 1024-byte read size (by padding the free-text
         # format attribute), and nothing follows it: the last read of the frame is a full one
         steps.append({"op": "down_aligned", "len": rng.choice([L, L, 700, 1500, 2300]), "pattern": "random", "mult": rng.choice([1024, 1024, 2048])})
+    if rng.random() < 0.25 and not big:
+        # the driver shows a further member of the BLOB property at run time; the clients learn of it through a repeated
+        # definition of the property they already know, and then receive a payload on it
+        steps.append({"op": "unveil_member", "len": rng.choice([1, 50, 900, L if L else 4]), "pattern": "random", "format": rng.choice([".fits", ""])})
     if rng.random() < 0.3 and not big:
         # a driver that comes up (is hot-plugged) after the clients connected and sent their enableBLOB for it
         steps.append({"op": "late_driver", "len": rng.choice([1, 3, 100, 956, L if L else 2]), "pattern": "random", "format": rng.choice([".fits", ""])})
@@ -389,6 +395,31 @@ def execute(scen):
                 if not viol:
                     compared += 1 if L else 0
                     follow(ctx, facts)
+            elif op == "unveil_member":
+                if getattr(node, "blob_conn_cut", False) or stack.el_obj("CAM", "IMG", "B2").enabled:
+                    continue
+                data = payload(scen["seed"] + 19 * L + 4, L, st["pattern"])
+                fmt = st["format"]
+                facts = {"direction": "download", "len": L, "unveiled_member": True}
+                ctx = f"download of {L} bytes on a member of the BLOB property that the driver showed at run time"
+                apply_step(stack, {"op": "d_eenable", "dev": "CAM", "vec": "IMG", "el": "B2", "value": True})
+                apply_step(stack, {"op": "c_handshake", "c": 0, "device": "CAM", "name": "IMG"})
+                sim.settle()
+                res = apply_step(stack, {"op": "d_assign", "dev": "CAM", "vec": "IMG", "el": "B2", "value": {"blob_hex": data.hex(), "format": fmt}})
+                sim.settle()
+                probes["member_shown_at_run_time"] = probes.get("member_shown_at_run_time", 0) + 1
+                if res.error or res.skipped:
+                    viol.append({"clause": "C08.down", "detail": f"publishing raised {res.error or res.skipped}; {ctx}", "facts": facts})
+                    break
+                d = node.client.get_device("CAM")
+                iv = d.get_vector("IMG") if d else None
+                el2 = iv.get_element("B2") if iv and "B2" in iv.list_elements() else None
+                got = el2.value if el2 is not None else None
+                if got is None or isinstance(got, str) or bytes(got.binary) != data or (got.format or "") != fmt:
+                    viol.append({"clause": "C08.down", "detail": f"library client: the member is {'unknown to the client' if el2 is None else 'known but holds ' + str(got)[:40]}; {ctx}", "facts": dict(facts, receiver="library")})
+                    break
+                compared += 1
+                follow(ctx, facts)
             elif op == "late_driver":
                 from ..gen import drivers as G
                 data = payload(scen["seed"] + 11 * L + 2, L, st["pattern"])
